@@ -266,6 +266,13 @@ pub fn run_history(init: &Init, h: &[Op], check_c09: bool) -> Result<Outcome, (S
 /// C10 oracle for one recorded run: every prefix of the op log (from the first completed write
 /// on) must be a consistent truncated image.
 pub fn prefix_check(init: &Init, out: &Outcome, windows: &mut u64) -> Option<(String, String)> {
+    prefix_check_ext(init, out, windows, false)
+}
+
+/// `short_writes`: the destination accepted some writes only in part, so a crash point can fall inside the
+/// flush that carries the header and the directory (not something the writer can help): such prefixes are
+/// skipped, the entry law is judged on all others.
+pub fn prefix_check_ext(init: &Init, out: &Outcome, windows: &mut u64, short_writes: bool) -> Option<(String, String)> {
     let pre = init.pre_bytes();
     let start = init.start as usize;
     let n_ops = out.log.len();
@@ -277,6 +284,9 @@ pub fn prefix_check(init: &Init, out: &Outcome, windows: &mut u64) -> Option<(St
         // only look at boundaries after a completed write/seek (every op is one)
         let (data, written) = replay_prefix(&pre, &out.log, n);
         let is_written = |a: usize, len: usize| -> bool { a + len <= written.len() && written[a..a + len].iter().all(|w| *w) };
+        if short_writes && (!is_written(start, 32) || !is_written(start + out.dir_rva, dir_len)) {
+            continue;
+        }
         if !is_written(start, 32) {
             return Some(("header-missing".into(), format!("after {n} destination ops the header is not completely present")));
         }
@@ -519,7 +529,7 @@ pub fn replay_component(case: &Value, rep: &mut Report, c10: bool) {
         Ok(Ok(o)) => {
             if c10 {
                 let mut w = 0;
-                if let Some((k, m)) = prefix_check(&init, &o, &mut w) {
+                if let Some((k, m)) = prefix_check_ext(&init, &o, &mut w, matches!(init.fault, Fault::ShortWrites(_))) {
                     rep.violation(&format!("seq/{k}"), &m, case.clone());
                 }
             }
@@ -533,6 +543,7 @@ pub fn run_c10_component(ctx: &Ctx, rep: &mut Report) {
     let mut crash_points = 0u64;
     let mut windows = 0u64;
     let mut hist_count = 0u64;
+    let mut short_runs = 0u64;
     let mut fails: Vec<(String, String, Value)> = Vec::new();
     for init in &all_inits {
         for h in histories(depth, init.nslots, true) {
@@ -556,13 +567,33 @@ pub fn run_c10_component(ctx: &Ctx, rep: &mut Report) {
                     }
                 }
             }
+            // the same history into a destination that accepts at most 13 / 33 bytes per write (a directory
+            // entry, 12 bytes, still goes out in one piece; a flush of 40 pending bytes does not)
+            if h.len() <= depth - 1 && init.base == 0 {
+                for sw in [13usize, 33] {
+                    let fi = Init { fault: Fault::ShortWrites(sw), ..*init };
+                    short_runs += 1;
+                    match guarded(|| run_history(&fi, &h, false)) {
+                        Err(p) => fails.push(("panic-short-writes".into(), p, case_json(&fi, &h))),
+                        Ok(Err((k, m))) => fails.push((format!("short-writes/{k}"), m, case_json(&fi, &h))),
+                        Ok(Ok(o)) => {
+                            crash_points += o.log.len() as u64;
+                            if let Some((k, m)) = prefix_check_ext(&fi, &o, &mut windows, true) {
+                                if !fails.iter().any(|f| f.0 == format!("seq-short-writes/{k}")) {
+                                    fails.push((format!("seq-short-writes/{k}"), format!("history {:?}, destination accepting at most {sw} bytes per write: {m}", h.iter().map(|o| o.name()).collect::<Vec<_>>()), case_json(&fi, &h)));
+                                }
+                            }
+                        }
+                    }
+                }
+            }
         }
     }
     rep.states += hist_count;
     rep.transitions += crash_points;
     rep.traces += hist_count;
     rep.evaluations += crash_points;
-    rep.set("dirsection_histories", json!({"depth_after_initial_flush": depth, "histories_x_inits": hist_count, "crash_points": crash_points, "entry_before_data_windows_seen": windows}));
+    rep.set("dirsection_histories", json!({"depth_after_initial_flush": depth, "histories_x_inits": hist_count, "crash_points": crash_points, "entry_before_data_windows_seen": windows, "runs_with_short_writes": short_runs}));
     for (k, m, c) in fails.into_iter().take(10) {
         rep.violation(&k, &m, c);
     }
